@@ -159,6 +159,11 @@ func someAddr(r *Rng, c *SrvConf, h *host) net.IP {
 }
 
 func genMsg(r *Rng, c *SrvConf, h *host, xid uint32) (MsgSpec, string) {
+	return genMsgKind(r, c, h, xid, "")
+}
+
+// genMsgKind: as genMsg, with the kind of message fixed when forced != "".
+func genMsgKind(r *Rng, c *SrvConf, h *host, xid uint32, forced string) (MsgSpec, string) {
 	m := MsgSpec{MAC: h.mac, Xid: xid, Flags: h.flags, Cid: h.cid}
 	if r.Chance(5) {
 		m.Flags = uint16(r.U64())
@@ -172,8 +177,14 @@ func genMsg(r *Rng, c *SrvConf, h *host, xid uint32) (MsgSpec, string) {
 	kind := Pick(r, "discover", "discover", "discover-req", "selecting", "selecting", "selecting", "selecting-other", "init-reboot",
 		"renewing", "rebinding", "wrong-server", "unicast-elsewhere", "own-mac", "req-self", "unknown-type", "forged-cid", "short-mac", "discover-sid", "discover-unicast")
 	own := h.lastOff
-	if own == nil || r.Chance(15) {
+	if own == nil || (r.Chance(15) && forced == "") {
 		own = someAddr(r, c, h)
+	}
+	if forced != "" {
+		kind = forced
+	}
+	if r.Chance(10) { // a client asking for a lease time of its own (option 51 in a client message)
+		m.Extra = append(m.Extra, dhcpmsg.OptionIPAddressLeaseDuration(Pick(r, time.Second, 10*time.Second, 30*time.Second, time.Minute, 3*c.Lease)))
 	}
 	switch kind {
 	case "discover":
@@ -298,6 +309,31 @@ func srvScript(t *testing.T, r *Rng, s *Stream, c *SrvConf, replaySteps []script
 		}
 	}
 	steps := 5 + r.Intn(40)
+	// directed motifs (20% of the scripts): histories that need a particular order and spacing
+	type planStep struct {
+		gap  time.Duration
+		host int
+		kind string
+	}
+	var plan []planStep
+	if len(hosts) >= 2 && r.Chance(20) {
+		a, b := 0, 1
+		near := offerHold - 2*time.Second
+		switch r.Intn(4) {
+		case 0: // re-DISCOVER shortly before the hold runs out, then a competitor, then the first host's REQUEST
+			plan = []planStep{{0, a, "discover"}, {near, a, "discover"}, {3 * time.Second, b, "discover"}, {time.Second, b, "selecting"}, {time.Second, a, "selecting"}}
+		case 1: // re-DISCOVER shortly before the lease runs out
+			plan = []planStep{{0, a, "discover"}, {time.Second, a, "selecting"}, {c.Lease - 3*time.Second, a, "discover"}, {5 * time.Second, b, "discover"},
+				{time.Second, b, "selecting"}, {time.Second, a, "selecting"}, {time.Second, a, "renewing"}}
+		case 2: // a lease, then the competitor after hold time but long before the lease ends, then a renewal
+			plan = []planStep{{0, a, "discover"}, {time.Second, a, "selecting"}, {offerHold + 2*time.Second, b, "discover-req"}, {time.Second, b, "selecting"},
+				{c.Lease / 2, a, "renewing"}, {time.Second, b, "discover"}}
+		default: // retransmitted DISCOVERs and REQUESTs of two hosts interleaved
+			plan = []planStep{{0, a, "discover"}, {0, b, "discover"}, {time.Second, a, "discover"}, {time.Second, b, "selecting"}, {0, a, "selecting"},
+				{0, a, "selecting"}, {offerHold + 2*time.Second, b, "selecting"}, {time.Second, a, "rebinding"}}
+		}
+		s.Count("motif-script")
+	}
 	xid := uint32(r.U64())
 	pool := int64(dt-df) + 2
 	if dt == 0 {
@@ -307,13 +343,24 @@ func srvScript(t *testing.T, r *Rng, s *Stream, c *SrvConf, replaySteps []script
 	for k := 0; k < steps; k++ {
 		gap := Pick(r, time.Duration(0), time.Second, 5*time.Second, offerHold-2*time.Second, offerHold+2*time.Second, c.Lease/2, c.Lease-3*time.Second,
 			c.Lease+3*time.Second, 3*c.Lease)
+		forced := ""
+		hi := r.Intn(len(hosts))
+		if k < len(plan) {
+			gap, hi, forced = plan[k].gap, plan[k].host, plan[k].kind
+			if gap > settle {
+				gap -= settle // the spacing of a motif counts from message to message
+			}
+		}
 		time.Sleep(gap)
-		h := hosts[r.Intn(len(hosts))]
+		h := hosts[hi]
 		xid++
 		var frame []byte
 		kind := ""
 		var m MsgSpec
-		if r.Chance(8) {
+		if forced != "" {
+			m, kind = genMsgKind(r, c, h, xid, forced)
+			frame = m.Frame()
+		} else if r.Chance(8) {
 			frame, kind = MutateFrame(r, ValidRequestFrame(r))
 			kind = "junk-" + kind
 		} else {
